@@ -26,7 +26,9 @@ EXPLANATION = (
     "is safe is written as a backslash escape (inside a replacement field the literal would be "
     "refused). C04-R7: the refusal of backslash / enclosing quote is applied to the EXPRESSION of a "
     "replacement field, not to text that includes its format spec (an escape there is legal on "
-    "every version)."
+    "every version). C04-R8: a bytes constant is written b<quote of the nesting level>...<same quote> and "
+    "its escaper (found by use) takes a safe emission for every byte value x quote (only ASCII may appear "
+    "in a bytes literal)."
 )
 ASSUMPTIONS = ["contracts of ascii()/repr() as documented", "nothing is claimed about ast.unparse (stdlib)"]
 
@@ -77,6 +79,11 @@ def _emission(pr):
         parts = item.parts
         if len(parts) == 2 and parts[0] == "\\" and isinstance(parts[1], Unknown) and parts[1].desc == "qm":
             return "bsquote", "backslash + quote"
+    if isinstance(item, Str) and len(item.parts) == 2 and item.parts[0] == "\\x" and isinstance(item.parts[1], StrOp) and item.parts[1].op == "format":
+        f = item.parts[1]
+        spec = f.args[1].value if isinstance(f.args[1], Cst) else f.args[1]
+        if isinstance(f.args[0], StrOp) and f.args[0].op == "ord" and spec == "02x":
+            return "hexbyte", "\\x + two hex digits of ord(c)"
     if isinstance(item, Cst) and isinstance(item.value, str):
         return "literal:" + item.value, repr(item.value)
     if isinstance(item, Str) and all(isinstance(p, str) for p in item.parts):
@@ -549,7 +556,16 @@ def rule_r4(ctx):
     quotes = set()
     for v in q.values():
         quotes |= v
-    if refuses_outer_quote:
+    if refuses_outer_quote and len(quotes) <= 2:
+        # no wrong text: the third level is refused.  But three levels are ordinary - an f-string in a
+        # field of an f-string that reads a captured variable (the converter writes __ol_nonlocal_x['v']
+        # there) - and a spelling exists (triple quotes for the outer levels)
+        rr.fail(
+            "C04-R4|_Node|two-quotes|depth-3-refused",
+            f"{fi.where()}: nested string literals alternate between only {sorted(quotes)}: a literal at nesting depth 3 would re-use the quote of the outermost f-string and is refused, although `f\'\'\'{{f\"{{d['v']}}\"}}\'\'\'` is valid on 3.8+: `def f():\\n v = 1\\n def g(): return f\"{{', '.join(f'{{n}}={{v}}' for n in 'ab')}}\"` cannot be converted with unparser=oneliner (the rewritten `v` is `__ol_nonlocal_x['v']`, a third string level)",
+            where=fi.where(), what="quotes|depth",
+        )
+    elif refuses_outer_quote:
         rr.ok("quotes|depth", sample={"rule": "C04-R4", "verdict": "a field that contains the enclosing quote is refused"})
     elif len(quotes) <= 2:
         rr.fail(
@@ -565,7 +581,13 @@ def rule_r4(ctx):
     paths = [p for p in U.paths("Constant") if p.outcome == "ok"]
     bytes_repr = [p for p in paths if isinstance(p.result, StrOp) and _mentions(p.result, "repr") and not any(k.startswith("isinstance:") and "bytes" in k and v is False for k, v in p.assign.items()) and not any(k.endswith(":str") and v is True for k, v in p.assign.items()) and not any("Ellipsis" in k and v is True for k, v in p.assign.items())]
     if bytes_repr and refuses_outer_quote:
-        rr.ok("bytes", sample={"rule": "C04-R4", "verdict": "repr() may pick the enclosing quote, but such a field is refused"})
+        # no wrong text any more - but repr() picks ' whenever it can, which is the quote of every
+        # top-level f-string: the refusal hits ordinary scripts, although the other quote would do
+        rr.fail(
+            "C04-R4|Constant|bytes|quote-ignored-refused-in-field",
+            f"{U.gen_map['Constant'].where()}: bytes constants are rendered by repr(), which ignores the quote chosen for the nesting level and prefers `'`, the quote of every top-level f-string: `x = b'abc'; print(f\"{{x.startswith(b'a')}}\")` is refused under unparser=oneliner (\"The quotation mark of a f-string is included ...\") although b\"a\" is a valid spelling inside the field",
+            where=U.gen_map["Constant"].where(), what="bytes",
+        )
     elif bytes_repr:
         rr.fail(
             "C04-R4|Constant|bytes|repr-quote",
@@ -589,6 +611,78 @@ def _c02r5(ctx):
     from .c02 import rule_r5 as r
 
     return r(ctx)
+
+
+def _safe_in_bytes(emission, lo, hi, qm):
+    """Is the emission a correct, single-line spelling of every byte value of the cell inside a bytes
+    literal delimited by qm?  (Only ASCII characters may appear in a bytes literal.)"""
+    q = ord(qm)
+    if emission == "raw":
+        ok = 0x20 <= lo and hi <= 0x7E and not (lo <= q <= hi) and not (lo <= 0x5C <= hi)
+        return ok, "printable ASCII" if ok else "only printable ASCII other than the quote and the backslash may stand for itself in a bytes literal (a character above 0x7f is a SyntaxError: bytes can only contain ASCII literal characters)"
+    if emission == "ascii":
+        if lo <= q <= hi:
+            return False, "ascii() of the active quote character is that character unescaped"
+        return True, "escaped by ascii() (\\xNN for 0x80-0xff)"
+    if emission == "hexbyte":
+        return hi <= 0xFF, "\\xNN"
+    if emission == "bsquote":
+        return (lo == hi == q), "backslash + quote"
+    return False, "unrecognised emission"
+
+
+def rule_r8(ctx):
+    rr = RuleResult("C04-R8", "bytes constants: written as b<quote of the nesting level>...<same quote>, every byte value x quote takes a safe emission")
+    rr.exhaustive = True
+    rr.floor = 20
+    U = ctx.ustr
+    cpaths = [p for p in U.paths("Constant") if p.outcome == "ok"]
+    bpaths = [p for p in cpaths if any(k.startswith("isinstance:") and k.endswith(":bytes") and v is True for k, v in p.assign.items())]
+    rr.instances += 1
+    if not bpaths:
+        # no case of its own: bytes take the generic repr() route, judged by C04-R4 (quote discipline)
+        rr.ok("bytes|generic-repr", sample={"rule": "C04-R8", "verdict": "no bytes case; see C04-R4"})
+        rr.floor = 1
+        return rr
+    fi = U.gen_map["Constant"]
+    bad = [p for p in bpaths if not (isinstance(p.result, Str) and len(p.result.parts) >= 3 and p.result.parts[0] == "b" and isinstance(p.result.parts[1], Unknown) and p.result.parts[1].desc == "qm" and isinstance(p.result.parts[-1], Unknown) and p.result.parts[-1].desc == "qm")]
+    if bad:
+        rr.fail("C04-R8|Constant|bytes|delimiters", f"{fi.where()}: a bytes constant is not rendered as b<quote><escaped bytes><same quote>: `{render(bad[0].result)[:80]}`", where=fi.where(), what="bytes|delimiters")
+    else:
+        rr.ok("bytes|delimiters", sample={"rule": "C04-R8", "skeleton": render(bpaths[0].result)[:80]})
+    # the interpreter runs the escaping routine in line: every path of the bytes case is one class of
+    # byte values (the decisions about the generic character) with what is appended for it
+    def char_keys(pr):
+        return {k: v for k, v in pr.assign.items() if re.match(r"(eq|ord|in):(char|.*\[\*\])", k)}
+
+    okp = bpaths
+    efi = fi
+    if not any(char_keys(p) for p in okp):
+        rr.fail("C04-R8|Constant|bytes|no-escaper", f"{fi.where()}: the bytes case does not decide per byte value how it is written", where=fi.where(), what="bytes|escaper")
+        rr.floor = 1
+        return rr
+    cells = [(lo, min(hi, 0xFF)) for lo, hi in _cells(okp) if lo <= 0xFF]
+    for qm in ("'", '"'):
+        for lo, hi in cells:
+            rr.instances += 1
+            matching = []
+            for pr in okp:
+                vals = [(_holds(k, v, lo, hi, qm), v) for k, v in char_keys(pr).items()]
+                if any(h is None for h, _v in vals):
+                    raise AnalysisError(f"C04-R8: {efi.name} tests a predicate the cell analysis does not know: {[k for k in char_keys(pr) if _holds(k, True, lo, hi, qm) is None][:2]}")
+                if all(h == v for h, v in vals):
+                    matching.append(pr)
+            cell = f"0x{lo:02X}" + (f"..0x{hi:02X}" if hi != lo else "")
+            what = f"byte|{cell}|quote={qm}"
+            if len(matching) != 1:
+                raise AnalysisError(f"C04-R8: {len(matching)} paths of {efi.name} match byte cell {cell} (quote {qm})")
+            em, desc = _emission(matching[0])
+            ok, why = _safe_in_bytes(em, lo, hi, qm)
+            if ok:
+                rr.ok(what, sample={"rule": "C04-R8", "cell": cell, "quote": qm, "emission": desc, "why_safe": why})
+            else:
+                rr.fail(f"C04-R8|{cell}|{em}", f"{efi.where()}: byte values {cell} (quote {qm}) are emitted as {desc}: {why}", where=efi.where(), what=what)
+    return rr
 
 
 def rule_r6(ctx):
@@ -660,4 +754,4 @@ def rule_r7(ctx):
     return rr
 
 
-RULES = [("C02-R5", _c02r5), ("C03-R7", _driver), ("C04-R1", rule_r1), ("C04-R2", rule_r2), ("C04-R3", rule_r3), ("C04-R4", rule_r4), ("C04-R6", rule_r6), ("C04-R7", rule_r7)]
+RULES = [("C02-R5", _c02r5), ("C03-R7", _driver), ("C04-R1", rule_r1), ("C04-R2", rule_r2), ("C04-R3", rule_r3), ("C04-R4", rule_r4), ("C04-R6", rule_r6), ("C04-R7", rule_r7), ("C04-R8", rule_r8)]
